@@ -25,7 +25,7 @@ import subprocess
 import sys
 import tempfile
 
-from sim import env, fingerprint as fp
+from sim import env, fingerprint as fp, gen
 
 PROP = 'C16'
 PY = '/venv/bin/python'
@@ -86,6 +86,11 @@ PROBE_DOCS = [
     '<html><body><iframe><html lang="fr"><body><p>in</p><form><input type="submit"></form></body></html></iframe>'
     '<p lang="en">out</p></body></html>',
     '<div><!-- only a comment --></div><div></div><div> </div><div>x</div>',
+    '<form><input type="date" min="2020-01-01" max="2020-12-31" value="2021-02-30"><input type="date" max="2020-02-30" '
+    'value="2020-03-15"><input type="month" min="2020-01" value="2020-13"><input type="week" max="2020-W10" value="2020-W60">'
+    '<input type="time" min="24:00" value="08:00"><input type="time" min="09:00" max="17:00" value="25:61">'
+    '<input type="datetime-local" max="2020-12-31T24:00" value="2021-01-01T00:00"><input type="number" min="0" max="5" '
+    'value="abc"><input type="range" min="1" max="3" value="2"><input type="date" min="2020-01-01" value="2020-06-15"></form>',
 ]
 PROBE_XML = [
     '<?xml version="1.0"?><root xmlns:x="urn:x-test"><x:item k="1">a</x:item><item>b</item></root>',
@@ -98,7 +103,12 @@ PROBE_SELECTORS = [
     ':root', ':empty', 'p:-soup-contains("note")', 'html:root > body p', ':-soup-contains-own(note)', 'div:empty, p:empty',
     ':checked', ':enabled', ':link', ':lang("")', ':not(:lang(en))', ':is(p, li):first-child', ':has(+ p)', '*',
     ':read-write', ':required, :optional', 'iframe p', ':only-child', ':dir(ltr)',
+    ':in-range', ':out-of-range', 'input:not(:in-range)', ':in-range, :out-of-range', ':disabled', ':placeholder-shown',
+    ':indeterminate', ':default', 'p:lang(de)', ':nth-last-of-type(2n+1)', ':is(:root, :empty)',
 ]
+# malformed selectors: Beautiful Soup and soupsieve must reject them the same way in every configuration
+INVALID_SELECTORS = ['p:nth-child(foo)', 'div >', ':lang()', 'p::before', ':has()', 'a[href', ':not()', 'p:unknown-pseudo',
+                     ':nth-child(2n+)', '> p', 'p,,a', ':dir(up)']
 XML_SELECTORS = ['x|item, item:first-child', 'item:empty', ':root', 'item:-soup-contains(cd)', ':lang(en)', 'item:nth-child(2)', '*']
 
 
@@ -124,10 +134,18 @@ def gen_job(rng):
         parser = 'xml' if 'lxml' not in blocked else 'html.parser'
     else:
         probe = {'markup': rng.choice(PROBE_DOCS), 'selector': rng.choice(PROBE_SELECTORS)}
+        feats = gen.markup_features(probe['markup'])
+        if feats and rng.random() < 0.5:
+            # a selector that exercises what this document contains (so that every group of the cross-run oracle
+            # is populated by several import programs / switches / fault sets)
+            probe['selector'] = rng.choice(gen.FEATURE_POOLS[rng.choice(feats)])
+        if rng.random() < 0.12:
+            probe['selector'] = rng.choice(INVALID_SELECTORS)
+            probe['invalid'] = True
         avail = ['html.parser', 'html.parser'] + [p for p in ('lxml', 'html5lib') if p not in blocked]
         parser = rng.choice(avail)
     probe['parser'] = parser
-    probe['target'] = rng.randint(0, 3)
+    probe['target'] = rng.randint(0, 1)
     return {'program': program, 'blocked': blocked, 'switches': switches, 'probe': probe}
 
 
@@ -166,6 +184,8 @@ def run_job(job, timeout=120):
 
 def probe_key(job):
     pr = job['probe']
+    # NB: interpreter switches and absent modules are deliberately NOT part of the key: the same probe must give the
+    # same answers under -O / -OO / -B and whatever optional modules are installed
     return fp.h((pr['markup'], pr['selector'], pr['parser'], pr.get('target'), sorted((pr.get('namespaces') or {}).items())))
 
 
@@ -186,9 +206,17 @@ def judge(job, res, rc, stderr):
     pr = res['probe'] or {}
     if 'fatal' in pr:
         return {'oracle': 'b-agree', 'detail': 'probe could not import/parse', 'error': pr['fatal']}
-    for k, v in pr.items():
-        if isinstance(v, dict) and 'exc' in v:
-            return {'oracle': 'b-agree', 'detail': f'{k} raised', 'error': v}
+    if job['probe'].get('invalid'):
+        # a malformed selector: every entry point must raise, and the same exception type
+        kinds = {k: (v.get('exc') if isinstance(v, dict) else 'returned') for k, v in pr.items() if k != 'n_elements'}
+        if len(set(kinds.values())) != 1 or 'returned' in kinds.values():
+            return {'oracle': 'b-agree', 'detail': 'a malformed selector is not rejected uniformly', 'outcomes': kinds}
+        pr = {k: (v if k == 'n_elements' else {'exc': v.get('exc')}) for k, v in pr.items()}
+        res['probe'] = pr
+    else:
+        for k, v in pr.items():
+            if isinstance(v, dict) and 'exc' in v:
+                return {'oracle': 'b-agree', 'detail': f'{k} raised', 'error': v}
     for a, b in PAIRS:
         if pr.get(a) != pr.get(b):
             return {'oracle': 'b-agree', 'detail': f'{a} != {b}', 'left': pr.get(a), 'right': pr.get(b)}
@@ -310,7 +338,7 @@ def post_batch(agg):
         if len(by_hash) > 1:
             items = [by_hash[h] for h in sorted(by_hash)]
             a, b = items[0], items[1]
-            v = {'oracle': 'c-order', 'detail': 'same probe and parser, different answers after different import programs',
+            v = {'oracle': 'c-order', 'detail': 'same probe and parser, different answers in different runs (import program, interpreter switches or absent modules differ)',
                  'left': a[4], 'right': b[4], 'other_program': b[3]['program']}
             rec = make_record(a[3], v, None)
             rec['other_job'] = b[3]
